@@ -18,7 +18,7 @@ TRUSTED_BASE = [
 ASSUMPTIONS = ['the to_dict stage (parse tree -> dict) is covered by the stages and the oracle, not by a conservation theorem; the footnote-resolution theorem assumes the shape wfDx of its input (checked on the implementation by C14\'s oracle)',
                'a repeated attribute name in one {...} list keeps the later value only (by construction of the attribute dict)']
 
-TOKEN = re.compile(r'(?:w|tok|ש|م|é|\U0001F600z|q|\U00020BB7z|\U000E0101z)\d+z')
+TOKEN = re.compile(r'(?:&amp;|&#38;|&lt;|&nbsp;|&copy;|%20)?(?:w|tok|ש|م|é|\U0001F600z|q|\U00020BB7z|\U000E0101z)\d+z')
 PLACEHOLDER_WORDS = {'(content', 'missing)', 'FOOTNOTE'}
 
 def _oracle(args):
